@@ -56,6 +56,8 @@ type MetricRegistry struct {
 
 	mu sync.Mutex
 	wg sync.WaitGroup
+	// lifecycle serialises Start and Stop, so that a Start never adds to the wait group while a Stop is waiting on it
+	lifecycle sync.Mutex
 
 	started bool
 	stopper chan bool
@@ -120,6 +122,8 @@ func NewMetricRegistryWithClient(
 
 // Start will start the metric registry polling
 func (r *MetricRegistry) Start() {
+	r.lifecycle.Lock()
+	defer r.lifecycle.Unlock()
 	r.mu.Lock()
 	if !r.started {
 		r.started = true
@@ -154,6 +158,8 @@ func (r *MetricRegistry) run() {
 
 // Stop will gracefully stop the registry
 func (r *MetricRegistry) Stop() {
+	r.lifecycle.Lock()
+	defer r.lifecycle.Unlock()
 	r.mu.Lock()
 	if !r.started {
 		r.mu.Unlock()
